@@ -106,7 +106,7 @@ def diff(before, after):
     return removed, created, modified
 
 
-@PROP.given('tree-snapshots', lambda tier: st.tuples(tree(), command()), quick=500, thorough=16000, shards_quick=8)
+@PROP.given('tree-snapshots', lambda tier: st.tuples(tree(), command()), quick=1600, thorough=16000, shards_quick=8)
 def tree_snapshots(case, note):
     t, c = case
     with D.TempDir('c11') as top:
